@@ -352,46 +352,46 @@ Print Assumptions C04_refuted_same_text_two_levels.
     reader gives back exactly the statements [table_stmts t] -- literal texts, every row, every level, the
     star pairs, max_fallback_level -- and resumes right after the section, for ALL literal texts (C07). *)
 Theorem C04_embed_bash_tables :
-  forall (t : tables) (k : nat) (rest : string),
-    scan (List.length (table_stmts t) + k) Bash
+  forall (t : tables) (cmd : string) (k : nat) (rest : string),
+    scan (List.length (table_stmts t) + k) Bash cmd
          (append (write_literals t) (append (write_match_transitions t) (append (write_completion_tables t) rest)))
-    = table_stmts t ++ scan k Bash rest.
+    = table_stmts t ++ scan k Bash cmd rest.
 Proof. exact bash_tables_roundtrip. Qed.
 Check C04_embed_bash_tables :
-  forall (t : tables) (k : nat) (rest : string),
-    scan (List.length (table_stmts t) + k) Bash
+  forall (t : tables) (cmd : string) (k : nat) (rest : string),
+    scan (List.length (table_stmts t) + k) Bash cmd
          (append (write_literals t) (append (write_match_transitions t) (append (write_completion_tables t) rest)))
-    = table_stmts t ++ scan k Bash rest.
+    = table_stmts t ++ scan k Bash cmd rest.
 Print Assumptions C04_embed_bash_tables.
 
 (** the same for the within-word transition rows of the completion function *)
 Theorem C04_embed_bash_subword_rows :
-  forall (m : list (N * list (N * N))) (k : nat) (rest : string),
-    scan (List.length m + k) Bash
+  forall (m : list (N * list (N * N))) (cmd : string) (k : nat) (rest : string),
+    scan (List.length m + k) Bash cmd
          (append (sconcat (map (fun row => fmtln write_completion_script_5
                                   [("state", sN (fst row)); ("state_transitions", join " " (map kv (snd row)))]) m)) rest)
-    = row_stmts "subword_transitions" m ++ scan k Bash rest.
+    = row_stmts "subword_transitions" m ++ scan k Bash cmd rest.
 Proof. exact bash_subword_rows_roundtrip. Qed.
 Check C04_embed_bash_subword_rows :
-  forall (m : list (N * list (N * N))) (k : nat) (rest : string),
-    scan (List.length m + k) Bash
+  forall (m : list (N * list (N * N))) (cmd : string) (k : nat) (rest : string),
+    scan (List.length m + k) Bash cmd
          (append (sconcat (map (fun row => fmtln write_completion_script_5
                                   [("state", sN (fst row)); ("state_transitions", join " " (map kv (snd row)))]) m)) rest)
-    = row_stmts "subword_transitions" m ++ scan k Bash rest.
+    = row_stmts "subword_transitions" m ++ scan k Bash cmd rest.
 Print Assumptions C04_embed_bash_subword_rows.
 
 (** and for its within-word candidate tables *)
 Theorem C04_embed_bash_subword_levels :
-  forall (levels : list (list (N * list N))) (k : nat) (rest : string),
-    scan (List.length levels + k) Bash
+  forall (levels : list (list (N * list N))) (cmd : string) (k : nat) (rest : string),
+    scan (List.length levels + k) Bash cmd
          (append (write_levels write_completion_script_11 write_completion_script_12 levels) rest)
-    = level_stmts "subword_transitions_level_" levels ++ scan k Bash rest.
+    = level_stmts "subword_transitions_level_" levels ++ scan k Bash cmd rest.
 Proof. exact bash_subword_levels_roundtrip. Qed.
 Check C04_embed_bash_subword_levels :
-  forall (levels : list (list (N * list N))) (k : nat) (rest : string),
-    scan (List.length levels + k) Bash
+  forall (levels : list (list (N * list N))) (cmd : string) (k : nat) (rest : string),
+    scan (List.length levels + k) Bash cmd
          (append (write_levels write_completion_script_11 write_completion_script_12 levels) rest)
-    = level_stmts "subword_transitions_level_" levels ++ scan k Bash rest.
+    = level_stmts "subword_transitions_level_" levels ++ scan k Bash cmd rest.
 Print Assumptions C04_embed_bash_subword_levels.
 
 (** The whole-script statement (reader applied to [EmitBash.script ...] = the data of [all_tables ...],
@@ -424,7 +424,7 @@ Example ex_C04_inhabited :
       /\ t_mcmd (a_main a) = Some [(0, [(0, 2)])]
       /\ t_mstar (a_main a) = Some [(2, 1)]
       /\ a_subtrans a = [(0, [(0, 1)])]
-      /\ read_stmts Bash (append (write_literals (a_main a)) (append (write_match_transitions (a_main a))
+      /\ read_stmts Bash "cmd" (append (write_literals (a_main a)) (append (write_match_transitions (a_main a))
                                                                  (write_completion_tables (a_main a))))
          = table_stmts (a_main a)
   | _ => False
